@@ -217,8 +217,11 @@ where
 
     // prepare response.
     let mut size = body.size();
+    // a 304 response never has a body; a content-length on it describes the representation that
+    // was not sent
+    let not_modified = res.head().status == http::StatusCode::NOT_MODIFIED;
     let res = prepare_response(config, res.head(), &mut size);
-    let eof_or_head = size.is_eof() || head_req;
+    let eof_or_head = size.is_eof() || head_req || not_modified;
 
     // send response head and return on eof.
     let mut stream = tx
